@@ -1,4 +1,103 @@
-(** Harness glue for C02 (stub: no families yet). *)
-From Coq Require Import List String.
-From KV Require Import Glue.Val.
-Definition c02_run (fam : string) (args : list val) : option string := None.
+(** Harness glue for C02: slice indexing / splitting / chunking.
+
+    families (args)                 fields
+      c02.idx   ty len i            get get_mut from from_mut upto upto_mut gfrom gfrom_mut
+                                    gupto gupto_mut split split_mut
+      c02.range ty len s e          range range_mut grange grange_mut
+      c02.arr   ty len N            arr arr_mut chunks rchunks
+      c02.ends  ty len              first last sfirst slast
+
+    [ty] is the element type of the harness (u16, unit, s3, u8, u64); only its size enters the
+    model.  usize is 64 bits wide in the harness. *)
+From Coq Require Import List ZArith Bool String.
+From KV Require Import Base.Prelude Model.Slice Glue.Val.
+Import ListNotations.
+Local Open Scope string_scope.
+
+Definition W : Z := 64.
+
+Definition size_of (ty : string) : option Z :=
+  if String.eqb ty "u16" then Some 2
+  else if String.eqb ty "unit" then Some 0
+  else if String.eqb ty "s3" then Some 3
+  else if String.eqb ty "u8" then Some 1
+  else if String.eqb ty "u64" then Some 8
+  else None.
+
+(** offset:len; every empty view is [e]; for zero-sized elements only the length is
+    observable ([z:len]) — same as [view_of] in harness/src/common.rs *)
+Definition show_ol (sz o n : Z) : string :=
+  if (n =? 0)%Z then "e"
+  else if (sz =? 0)%Z then "z:" ++ show_Z n
+  else show_Z o ++ ":" ++ show_Z n.
+Definition show_v (sz : Z) (v : view) : string := show_ol sz (off v) (vlen v).
+Definition show_elem (sz : Z) (i : Z) : string := show_ol sz i 1.
+Definition show_c (sz : Z) (c : chunks) : string := show_ol sz (coff c) (ccount c).
+
+(** a usize argument: a decimal number, or big-endian hex bytes ([x8000000000000000]) *)
+Definition as_usize (v : val) : Z :=
+  match v with
+  | VL l => fold_left (fun acc b => as_Z b + 256 * acc)%Z l 0%Z
+  | _ => as_Z v
+  end.
+
+Definition show_res {A} (f : A -> string) (r : res A) : string :=
+  match r with Ok a => f a | UB => "UB" | Panic => "PANIC" end.
+
+Definition c02_idx (sz len i : Z) : string :=
+  show_fields
+    [("get", show_res (show_opt (show_elem sz)) (get_m Shared len i));
+     ("get_mut", show_res (show_opt (show_elem sz)) (get_m Mut len i));
+     ("from", show_res (show_v sz) (slice_from_m Shared W sz len i));
+     ("from_mut", show_res (show_v sz) (slice_from_m Mut W sz len i));
+     ("upto", show_res (show_v sz) (slice_up_to_m Shared W sz len i));
+     ("upto_mut", show_res (show_v sz) (slice_up_to_m Mut W sz len i));
+     ("gfrom", show_res (show_opt (show_v sz)) (get_from_m Shared W sz len i));
+     ("gfrom_mut", show_res (show_opt (show_v sz)) (get_from_m Mut W sz len i));
+     ("gupto", show_res (show_opt (show_v sz)) (get_up_to_m Shared W sz len i));
+     ("gupto_mut", show_res (show_opt (show_v sz)) (get_up_to_m Mut W sz len i));
+     ("split", show_res (show_pair (show_v sz) (show_v sz)) (split_at_m W sz len i));
+     ("split_mut", show_res (show_pair (show_v sz) (show_v sz)) (split_at_mut_m W sz len i))].
+
+Definition c02_range (sz len s e : Z) : string :=
+  show_fields
+    [("range", show_res (show_v sz) (slice_range_m Shared W sz len s e));
+     ("range_mut", show_res (show_v sz) (slice_range_m Mut W sz len s e));
+     ("grange", show_res (show_opt (show_v sz)) (get_range_m Shared W sz len s e));
+     ("grange_mut", show_res (show_opt (show_v sz)) (get_range_m Mut W sz len s e))].
+
+Definition c02_arr (sz len N : Z) : string :=
+  show_fields
+    [("arr", show_res (show_opt (show_v sz)) (try_into_array_m Shared W sz len N));
+     ("arr_mut", show_res (show_opt (show_v sz)) (try_into_array_m Mut W sz len N));
+     ("chunks", show_res (show_pair (show_c sz) (show_v sz)) (as_chunks_m W sz len N));
+     ("rchunks", show_res (show_pair (show_v sz) (show_c sz)) (as_rchunks_m W sz len N))].
+
+Definition c02_ends (sz len : Z) : string :=
+  show_fields
+    [("first", show_opt (show_elem sz) (first_mut_m len));
+     ("last", show_opt (show_elem sz) (last_mut_m len));
+     ("sfirst", show_opt (show_pair (show_elem sz) (show_v sz)) (split_first_mut_m len));
+     ("slast", show_opt (show_pair (show_elem sz) (show_v sz)) (split_last_mut_m len))].
+
+Definition c02_run (fam : string) (args : list val) : option string :=
+  match args with
+  | ty :: rest =>
+      match size_of (as_atom ty) with
+      | None => None
+      | Some sz =>
+          match rest with
+          | [len; i] =>
+              if String.eqb fam "c02.idx" then Some (c02_idx sz (as_usize len) (as_usize i))
+              else if String.eqb fam "c02.arr" then Some (c02_arr sz (as_usize len) (as_usize i))
+              else None
+          | [len; s; e] =>
+              if String.eqb fam "c02.range" then Some (c02_range sz (as_usize len) (as_usize s) (as_usize e))
+              else None
+          | [len] =>
+              if String.eqb fam "c02.ends" then Some (c02_ends sz (as_usize len)) else None
+          | _ => None
+          end
+      end
+  | _ => None
+  end.
